@@ -279,6 +279,9 @@ func (f *file) readBlobAt(length int, off int64) (b blob.Blob, n int, err error)
 	if f.closed {
 		return nil, 0, f.closedErr("readat")
 	}
+	if off < 0 {
+		return nil, 0, &hackpadfs.PathError{Op: "readat", Path: f.path, Err: errors.New("negative offset")}
+	}
 	if off >= int64(f.Size()) {
 		return nil, 0, io.EOF
 	}
@@ -289,11 +292,11 @@ func (f *file) readBlobAt(length int, off int64) (b blob.Blob, n int, err error)
 	}
 	data, err := f.Data()
 	if err != nil {
-		return nil, 0, err
+		return nil, 0, &hackpadfs.PathError{Op: "read", Path: f.path, Err: err}
 	}
 	b, err = blob.View(data, off, end)
 	if err != nil {
-		return nil, 0, err
+		return nil, 0, &hackpadfs.PathError{Op: "read", Path: f.path, Err: err}
 	}
 	n = b.Len()
 	if off+int64(n) == max {
@@ -398,7 +401,7 @@ func (f *file) writeBlobAt(op string, p blob.Blob, off int64) (n int, err error)
 	if n != 0 {
 		f.updateModTime()
 	}
-	err = f.saveIfLinked()
+	err = f.fs.wrapperErr(op, f.path, f.saveIfLinked())
 	return
 }
 
@@ -448,7 +451,7 @@ func (f *file) truncate(size int64) error {
 		}
 	}
 	f.updateModTime()
-	return f.saveIfLinked()
+	return f.fs.wrapperErr("truncate", f.path, f.saveIfLinked())
 }
 
 func (f *file) ReadDir(n int) ([]hackpadfs.DirEntry, error) {
@@ -525,5 +528,5 @@ func (f *file) Chmod(mode hackpadfs.FileMode) error {
 	defer f.fs.opMu.Unlock()
 	newMode := (f.Mode() & ^chmodBits) | (mode & chmodBits)
 	f.modeOverride = &newMode
-	return f.saveIfLinked()
+	return f.fs.wrapperErr("chmod", f.path, f.saveIfLinked())
 }
